@@ -123,8 +123,14 @@ func AutoSave(s *eval.State, options Options) error {
 		log.Infof("Nothing changed, not auto saving")
 		return nil
 	}
+	if err := object.VerifPoint("autosave.start", 0); err != nil {
+		return err
+	}
 	f, err := os.CreateTemp(".", ".grol*.tmp")
 	if err != nil {
+		return err
+	}
+	if err := object.VerifPoint("autosave.created", 0); err != nil {
 		return err
 	}
 	// Write to temp file.
@@ -132,9 +138,15 @@ func AutoSave(s *eval.State, options Options) error {
 	if err != nil {
 		return err
 	}
+	if err := object.VerifPoint("autosave.written", n); err != nil {
+		return err
+	}
 	// Rename "atomically" (not really but close enough).
 	err = os.Rename(f.Name(), AutoSaveFile)
 	if err != nil {
+		return err
+	}
+	if err := object.VerifPoint("autosave.renamed", n); err != nil {
 		return err
 	}
 	log.Infof("Auto saved %d ids/fns (%d set) to: %s", n, updates, AutoSaveFile)
